@@ -203,6 +203,19 @@ HOMO = "piquasso/_simulators/fock/pure/simulation_steps/homodyne.py"
 V("c02g-hermite-weights-normalised", "C02", "silent",
   (HOMO, "    starting_index = 0\n    for idx in range(cutoff):\n        size = idx + 1\n        hermite_polynomial_coeffs = hermites[starting_index : starting_index + size]\n        starting_index += size\n        for jdx in range(current_d - 1):\n            hermite_vals[idx, jdx] = polyeval(hermite_polynomial_coeffs, positions[jdx])",
    "    normalizer = 1.0\n    starting_index = 0\n    for idx in range(cutoff):\n        if idx > 0:\n            normalizer *= np.sqrt(2.0 * idx)\n        size = idx + 1\n        hermite_polynomial_coeffs = hermites[starting_index : starting_index + size]\n        starting_index += size\n        for jdx in range(current_d - 1):\n            hermite_vals[idx, jdx] = polyeval(hermite_polynomial_coeffs, positions[jdx]) / normalizer"))
+V("c20f-index-error-counts-as-not-met", "C20", {"rule": "C20f", "contains": "errors stay errors"},
+  (INSTR, "            return self._condition(outcomes)\n        except Exception as e:", "            return self._condition(outcomes)\n        except IndexError:\n            return False\n        except Exception as e:"))
+V("c20f-handler-reraises-with-context", "C20", "silent",
+  (INSTR, "            return self._condition(outcomes)\n        except Exception as e:", "            return self._condition(outcomes)\n        except IndexError as index_error:\n            raise PiquassoException(f\"The condition refers to an outcome that does not exist: {index_error}\") from index_error\n        except Exception as e:"))
+V("c19c-sorted-qubit-indices-through-local", "C19", {"rule": "C19c", "contains": "qubit-operand-order"},
+  (DRE, "        if instr_qiskit.name in (\"cz\", \"cx\"):\n            if instr_qiskit.name == \"cz\":", "        if instr_qiskit.name in (\"cz\", \"cx\"):\n            qubit_indices = sorted(qubit_indices)\n            if instr_qiskit.name == \"cz\":"))
+V("c19e-condition-reads-last-pair", "C19", {"rule": "C19e", "contains": "_get_condition_function"},
+  (DRE, "        two_mode_outcomes = [(outcomes[qubit_index * 2], outcomes[qubit_index * 2 + 1])]", "        two_mode_outcomes = [(outcomes[-2], outcomes[-1])]"))
+V("c19e-condition-index-through-local", "C19", "silent",
+  (DRE, "        two_mode_outcomes = [(outcomes[qubit_index * 2], outcomes[qubit_index * 2 + 1])]", "        first_rail = 2 * qubit_index\n        two_mode_outcomes = [(outcomes[first_rail], outcomes[first_rail + 1])]"))
+PROGPY = "piquasso/api/program.py"
+V("c12b-shallow-copy-of-registered-instruction", "C12", {"rule": "C12b", "contains": "mutator-applied-to-copy"},
+  (PROGPY, "            instruction_copy = instruction.copy()\n", "            import copy\n            instruction_copy = copy.copy(instruction)\n", 1))
 # ------------------------------------------------------------------------------------------- C20
 V("c20-sub-add", "C20", {"rule": "C20c", "contains": "Sub"}, (EXPR, "ast.Sub: op.sub", "ast.Sub: op.add"))
 V("c20-lt-le", "C20", {"rule": "C20c", "contains": "Lt"}, (EXPR, "ast.Lt: op.lt", "ast.Lt: op.le"))
